@@ -279,5 +279,8 @@ C18_PageHasText == IsLangOut /\ Ev.cont => Ev.tags # <<>>
 
 \* ---- hook soundness
 Continuity == (l > 2 /\ Have /\ Ev.ev = "instr" /\ Ev.seq > 0) =>
-                 LET p == Trace[l - 2] IN p.ev = "instr" /\ p.sid = Ev.sid /\ p.req = Ev.req /\ p.seq + 1 = Ev.seq /\ p.post = Ev.pre
+                 LET p == Trace[l - 2] IN p.ev = "instr" /\ p.sid = Ev.sid /\ p.req = Ev.req /\ p.seq + 1 = Ev.seq
+                                          \* (a second run inside one request - the renderer's move to the catch node after a
+                                          \*  browse error - starts from what Render left: no connection across the end of a run)
+                                          /\ (p.post = Ev.pre \/ p.last)
 =============================================================================
